@@ -209,6 +209,56 @@ theorem centroid_regenerated {F : Type} [Field F] (a : Arr F) :
 
 example : centroidRC (⟨2, 3, fun i j => if i = 0 ∨ j = 2 then 1 else 0⟩ : Arr ℚ) = (1 / 4, 5 / 4) := by decide +kernel
 
+/-- **`util.rebin` regenerated** (`Gen.rebinReshape2`, `Gen.rebinSumAxes2`: the shape handed to `img.reshape` and the two summed axes are
+re-translated from the source): whenever the model's `rebin` accepts (factor divides both axes) the reshape is legal (the product of the new
+shape is the number of samples), the result shape is entries 0 and 2 of it, the summed axes are the two of length `factor` (last, then 1), and —
+`reshape` keeping the C-order position — entry `(i, u, j, v)` of the reshaped array is source sample `(i·f + u, j·f + v)`: exactly the block the
+model sums. So `rebin_preserves_sum` is about what this source line computes. -/
+theorem rebin_regenerated [Add K] [Zero K] (a r : Arr K) (f : Nat) (hr : rebin a f = some r) :
+    (Gen.rebinReshape2 a.s0 a.s1 f).foldl (· * ·) 1 = a.s0 * a.s1 ∧
+    Gen.rebinSumAxes2 = [-1, 1] ∧
+    r.s0 = (Gen.rebinReshape2 a.s0 a.s1 f)[0]! ∧ r.s1 = (Gen.rebinReshape2 a.s0 a.s1 f)[2]! ∧
+    ∀ i j : Int, (r.get i j = sumRange f fun u => sumRange f fun v => a.get (i * f + u) (j * f + v)) ∧
+      ∀ u v : Int, cFlat (Gen.rebinReshape2 a.s0 a.s1 f) [i, u, j, v] = (i * f + u) * a.s1 + (j * f + v) := by
+  unfold rebin at hr
+  by_cases g : (decide (0 < f) && decide (a.s0 % (f : Int) = 0) && decide (a.s1 % (f : Int) = 0)) = true
+  · rw [if_pos g] at hr
+    simp only [Bool.and_eq_true, decide_eq_true_eq] at g
+    obtain ⟨⟨_, g0⟩, g1⟩ := g
+    have e0 : a.s0 / (f : Int) * f = a.s0 := Int.ediv_mul_cancel (Int.dvd_of_emod_eq_zero g0)
+    have e1 : a.s1 / (f : Int) * f = a.s1 := Int.ediv_mul_cancel (Int.dvd_of_emod_eq_zero g1)
+    simp only [Option.some.injEq] at hr
+    subst hr
+    refine ⟨?_, rfl, rfl, rfl, fun i j => ⟨rfl, fun u v => ?_⟩⟩
+    · show 1 * (a.s0 / (f : Int)) * f * (a.s1 / (f : Int)) * f = a.s0 * a.s1
+      calc 1 * (a.s0 / (f : Int)) * f * (a.s1 / (f : Int)) * f = (a.s0 / (f : Int) * f) * (a.s1 / (f : Int) * f) := by ring
+        _ = a.s0 * a.s1 := by rw [e0, e1]
+    · show (((0 * (a.s0 / (f : Int)) + i) * f + u) * (a.s1 / (f : Int)) + j) * f + v = (i * f + u) * a.s1 + (j * f + v)
+      calc (((0 * (a.s0 / (f : Int)) + i) * f + u) * (a.s1 / (f : Int)) + j) * f + v
+          = (i * f + u) * (a.s1 / (f : Int) * f) + (j * f + v) := by ring
+        _ = _ := by rw [e1]
+  · rw [if_neg g] at hr; cases hr
+
+/-- the cube branch (`img.ndim == 3`): the depth axis is kept in front, the summed axes are again the two of length `factor` (last, then 2), and
+entry `(k, i, u, j, v)` of the reshaped cube is sample `(i·f + u, j·f + v)` of slice `k` -/
+theorem rebin3_regenerated (d s0 s1 : Int) (f : Nat) (h0 : s0 % (f : Int) = 0) (h1 : s1 % (f : Int) = 0) :
+    (Gen.rebinReshape3 d s0 s1 f).foldl (· * ·) 1 = d * s0 * s1 ∧
+    Gen.rebinSumAxes3 = [-1, 2] ∧
+    (Gen.rebinReshape3 d s0 s1 f)[0]! = d ∧ (Gen.rebinReshape3 d s0 s1 f)[1]! = s0 / f ∧ (Gen.rebinReshape3 d s0 s1 f)[3]! = s1 / f ∧
+    ∀ k i u j v : Int, cFlat (Gen.rebinReshape3 d s0 s1 f) [k, i, u, j, v] = (k * s0 + (i * f + u)) * s1 + (j * f + v) := by
+  have e0 : s0 / (f : Int) * f = s0 := Int.ediv_mul_cancel (Int.dvd_of_emod_eq_zero h0)
+  have e1 : s1 / (f : Int) * f = s1 := Int.ediv_mul_cancel (Int.dvd_of_emod_eq_zero h1)
+  refine ⟨?_, rfl, rfl, rfl, rfl, fun k i u j v => ?_⟩
+  · show 1 * d * (s0 / (f : Int)) * f * (s1 / (f : Int)) * f = d * s0 * s1
+    calc 1 * d * (s0 / (f : Int)) * f * (s1 / (f : Int)) * f = d * (s0 / (f : Int) * f) * (s1 / (f : Int) * f) := by ring
+      _ = d * s0 * s1 := by rw [e0, e1]
+  · show ((((0 * d + k) * (s0 / (f : Int)) + i) * f + u) * (s1 / (f : Int)) + j) * f + v = (k * s0 + (i * f + u)) * s1 + (j * f + v)
+    calc ((((0 * d + k) * (s0 / (f : Int)) + i) * f + u) * (s1 / (f : Int)) + j) * f + v
+        = (k * (s0 / (f : Int) * f) + (i * f + u)) * (s1 / (f : Int) * f) + (j * f + v) := by ring
+      _ = _ := by rw [e0, e1]
+
+example : rebin (⟨4, 6, fun i j => 10 * i + j⟩ : Arr Int) 2 ≠ none ∧ cFlat (Gen.rebinReshape2 4 6 2) [1, 1, 2, 0] = 3 * 6 + 4 := by decide
+
 /-! ## sub-array extraction -/
 
 /-- `subarray(a, (h, w), shift)` returns the `h × w` window whose sample `(i, j)` is the source sample at coordinate
